@@ -1,20 +1,43 @@
 //! C14 correspondence harness: drives the real policy code (simple threshold, weighted
 //! threshold, spending limit) inside the Soroban host with exact authorisation sets and
 //! prints, per call, the call, its outcome and a full observation of the public getters.
+//!
+//! Hardening round (situation classes K1..K6, see props/C14.json): the universe of a world is explicit
+//! (`oa` = observed accounts, `rids` = observed rule ids).  Accounts 4, 5, 6 are the addresses of the three
+//! policy contracts themselves, account 7 (only in `real_account`) is the real multisig smart-account
+//! contract; token contracts and transfer parties of a context range over plain addresses, the accounts, the
+//! asked policy, muxed and G addresses; 12 signers incl. degenerate keys; every rule flavour; the simple and
+//! the spending policy are driven both through the example contracts and through library wrappers.
 use soroban_sdk::{
     auth::{
         Context, ContractContext, ContractExecutable, CreateContractHostFnContext,
         CreateContractWithConstructorHostFnContext,
     },
     contract, contractimpl,
-    testutils::{Address as _, Events as _, Ledger as _, MockAuth, MockAuthInvoke},
-    xdr, Address, Bytes, BytesN, Env, Error, IntoVal, Map, String as SString, Symbol, TryFromVal, Val, Vec,
+    testutils::{Address as _, Events as _, Ledger as _, MockAuth, MockAuthInvoke, MuxedAddress as _},
+    xdr, Address, Bytes, BytesN, Env, Error, IntoVal, Map, MuxedAddress, String as SString, Symbol, TryFromVal, Val, Vec,
 };
 use stellar_accounts::{
-    policies::{spending_limit as sl, weighted_threshold as wt, PolicyClient},
-    smart_account::{ContextRule, ContextRuleType, Signer},
+    policies::{simple_threshold as stl, spending_limit as sl, weighted_threshold as wt, PolicyClient},
+    smart_account::{ContextRule, ContextRuleType, Signatures, Signer, SmartAccountError},
 };
 use vh::*;
+
+// K3: the REAL smart account example as the caller of the policies (its __check_auth asks can_enforce for every
+// context, then enforces every context, all inside one invocation)
+mod acct {
+    #[path = "/repo/examples/multisig-smart-account/account/src/contract.rs"]
+    pub mod contract;
+}
+use acct::contract::MultisigContract;
+
+/// a verifier that accepts everything (the signers of the real account are External(v1, key))
+#[contract]
+pub struct VerifierOk;
+#[contractimpl]
+impl VerifierOk {
+    pub fn verify(_e: Env, _hash: Bytes, _key_data: Val, _sig_data: Val) -> bool { true }
+}
 
 // the real example policy contracts (cdylib-only crates, included textually)
 #[path = "/repo/examples/multisig-smart-account/threshold-policy/src/contract.rs"]
@@ -53,6 +76,55 @@ impl WeightedC {
     }
 }
 
+/// K3 (sibling entry paths): the INHERENT library functions of the simple and the spending policy behind thin
+/// wrappers, next to the example contracts (which reach them through their `Policy` trait wiring)
+#[contract]
+pub struct SimpleLib;
+#[contractimpl]
+impl SimpleLib {
+    pub fn can_enforce(e: Env, context: Context, authenticated_signers: Vec<Signer>, context_rule: ContextRule, smart_account: Address) -> bool {
+        stl::can_enforce(&e, &context, &authenticated_signers, &context_rule, &smart_account)
+    }
+    pub fn enforce(e: Env, context: Context, authenticated_signers: Vec<Signer>, context_rule: ContextRule, smart_account: Address) {
+        stl::enforce(&e, &context, &authenticated_signers, &context_rule, &smart_account)
+    }
+    pub fn install(e: Env, install_params: stl::SimpleThresholdAccountParams, context_rule: ContextRule, smart_account: Address) {
+        stl::install(&e, &install_params, &context_rule, &smart_account)
+    }
+    pub fn uninstall(e: Env, context_rule: ContextRule, smart_account: Address) {
+        stl::uninstall(&e, &context_rule, &smart_account)
+    }
+    pub fn get_threshold(e: Env, context_rule_id: u32, smart_account: Address) -> u32 {
+        stl::get_threshold(&e, context_rule_id, &smart_account)
+    }
+    pub fn set_threshold(e: Env, threshold: u32, context_rule: ContextRule, smart_account: Address) {
+        stl::set_threshold(&e, threshold, &context_rule, &smart_account)
+    }
+}
+#[contract]
+pub struct SpendLib;
+#[contractimpl]
+impl SpendLib {
+    pub fn can_enforce(e: Env, context: Context, authenticated_signers: Vec<Signer>, context_rule: ContextRule, smart_account: Address) -> bool {
+        sl::can_enforce(&e, &context, &authenticated_signers, &context_rule, &smart_account)
+    }
+    pub fn enforce(e: Env, context: Context, authenticated_signers: Vec<Signer>, context_rule: ContextRule, smart_account: Address) {
+        sl::enforce(&e, &context, &authenticated_signers, &context_rule, &smart_account)
+    }
+    pub fn install(e: Env, install_params: sl::SpendingLimitAccountParams, context_rule: ContextRule, smart_account: Address) {
+        sl::install(&e, &install_params, &context_rule, &smart_account)
+    }
+    pub fn uninstall(e: Env, context_rule: ContextRule, smart_account: Address) {
+        sl::uninstall(&e, &context_rule, &smart_account)
+    }
+    pub fn get_spending_limit_data(e: Env, context_rule_id: u32, smart_account: Address) -> sl::SpendingLimitData {
+        sl::get_spending_limit_data(&e, context_rule_id, &smart_account)
+    }
+    pub fn set_spending_limit(e: Env, spending_limit: i128, context_rule: ContextRule, smart_account: Address) {
+        sl::set_spending_limit(&e, spending_limit, &context_rule, &smart_account)
+    }
+}
+
 /// stands for the smart account as *caller* of the policies: a contract is authorised for
 /// the calls it makes itself, and it enforces all contexts of a batch in one invocation
 /// (as smart_account::do_check_auth does).
@@ -74,8 +146,17 @@ impl AccountMock {
 // ---------------------------------------------------------------------------------------------
 const RIDS: [u32; 2] = [1, u32::MAX];
 const NACCT: usize = 3; // 0 = AccountMock contract, 1 and 2 = plain addresses; 3 = outsider (never a smart account)
-const NSG: usize = 6;
-const FNAMES: [&str; 6] = ["transfer", "approve", "transferx", "Transfer", "mint", "transfe"];
+// accounts 4, 5, 6 = the addresses of the simple / weighted / spending policy contracts themselves (K1: special
+// addresses as parties; only observed in the worlds that list them in `oa`)
+const A_POL: [usize; 3] = [4, 5, 6];
+// signers 0..5 as before; 6 = External(v1, empty key), 7 = External(v1, 32 zero bytes), 8 = External(v1, 32 0xff bytes),
+// 9 = Delegated(account 1 itself), 10 = Delegated(the spending policy contract), 11 = Delegated(a G... account address)
+const NSG: usize = 12;
+const FNAMES: [&str; 10] = ["transfer", "approve", "transferx", "Transfer", "mint", "transfe", "", "transfer_from", "TRANSFER", "transfer_"];
+// token contracts of a context: 0, 1 = plain addresses; 2 = account 0 (the AccountMock contract); 3 = the policy
+// contract that is being asked; 4, 5, 6 = accounts 1, 2, 3
+const NTOK: usize = 7;
+fn tok_of_acct(a: usize) -> usize { match a { 0 => 2, 1 => 4, 2 => 5, _ => 6 } }
 
 /// test-ledger configurations (two, as the persistence of the policy state must not depend on them)
 #[derive(Clone, Copy, Debug)]
@@ -89,12 +170,16 @@ const HOSTS: [HostCfg; 2] = [
 const GAPS: [u32; 8] = [20, 100, 17_281, 20_000, 600_000, 1_100_000, 4_000_000, 7_000_000];
 
 #[derive(Clone, Debug)]
-enum A { I(i128), U32(u32), Addr, U128(u128), I64(i64), Void, Sym, U64(u64) }
+enum A { I(i128), U32(u32), Addr, U128(u128), I64(i64), Void, Sym, U64(u64),
+         /// K1/K5 parties: account i, the policy asked, token contract i, a muxed (G-account, id) destination, a G-account
+         Acct(usize), Pol, Tok(usize), Muxed(u64), G }
 #[derive(Clone, Debug)]
 struct Cx { tok: usize, kind: u8, f: usize, args: std::vec::Vec<A> }
 impl Cx {
     fn transfer(a: i128) -> Cx { Cx { tok: 0, kind: 0, f: 0, args: std::vec![A::Addr, A::Addr, A::I(a)] } }
     fn transfer_t(tok: usize, a: i128) -> Cx { Cx { tok, kind: 0, f: 0, args: std::vec![A::Addr, A::Addr, A::I(a)] } }
+    /// transfer(from, to, amount) on token `tok` with explicit parties
+    fn transfer_p(tok: usize, from: A, to: A, a: i128) -> Cx { Cx { tok, kind: 0, f: 0, args: std::vec![from, to, A::I(a)] } }
     fn coq(&self) -> String {
         let args: std::vec::Vec<String> = self.args.iter().map(|a| match a { A::I(v) => format!("(AI128 {})", z(*v)), _ => "AOther".to_string() }).collect();
         match self.kind { 0 => format!("(CContract {} {} {})", n(self.tok as u64), n(self.f as u64), list(&args)), 1 => "CCreate".into(), _ => "CCreateCtor".into() }
@@ -121,8 +206,14 @@ struct World {
     items: std::vec::Vec<String>,
     max_hist: u32,
     prev_lp: std::vec::Vec<Option<(i128, u32)>>, // per key: last observed (limit, period)
-    na: usize,                  // accounts of the observed universe (0..na)
-    nr: usize,                  // rule ids of the observed universe (RIDS[0..nr])
+    #[allow(dead_code)]
+    na: usize,                  // number of observed accounts (= oa.len())
+    nr: usize,                  // number of observed rule ids (= rids.len())
+    oa: std::vec::Vec<usize>,   // accounts of the observed universe (default 0..na)
+    rids: std::vec::Vec<u32>,   // rule ids of the observed universe (default RIDS[0..nr]); calls address rids[r]
+    gaddr: Address,             // an account (G...) address
+    lib: bool,                  // simple / spending policy = library wrappers instead of the example contracts
+    flav: Option<usize>,        // Some(f): every rule passed to the policies has flavour f (else derived from the call count)
     prev_full: String, // canonical text of the last observed getter values
 }
 
@@ -138,46 +229,72 @@ impl Auth {
 impl World {
     fn new(start: u32) -> World { World::with_host(start, NACCT, RIDS.len(), HOSTS[0]) }
     fn with_universe(start: u32, na: usize, nr: usize) -> World { World::with_host(start, na, nr, HOSTS[0]) }
-    fn with_host(start: u32, na: usize, nr: usize, h: HostCfg) -> World {
+    fn with_host(start: u32, na: usize, nr: usize, h: HostCfg) -> World { World::build(start, (0..na).collect(), RIDS[..nr].to_vec(), h, false) }
+    /// a world with an explicit universe of observed accounts and rule ids
+    fn special(start: u32, oa: &[usize], rids: &[u32], lib: bool) -> World { World::build(start, oa.to_vec(), rids.to_vec(), HOSTS[0], lib) }
+    fn build(start: u32, oa: std::vec::Vec<usize>, rids: std::vec::Vec<u32>, h: HostCfg, lib: bool) -> World {
+        let (na, nr) = (oa.len(), rids.len());
         let e = Env::default();
         e.cost_estimate().budget().reset_unlimited();
         e.cost_estimate().disable_resource_limits();
         e.ledger().with_mut(|l| { l.sequence_number = start; l.min_temp_entry_ttl = h.min_temp; l.min_persistent_entry_ttl = h.min_pers; l.max_entry_ttl = h.max_ttl; });
-        let simple = e.register(threshold_policy::ThresholdPolicyContract, ());
+        let simple = if lib { e.register(SimpleLib, ()) } else { e.register(threshold_policy::ThresholdPolicyContract, ()) };
         let weighted = e.register(WeightedC, ());
-        let spending = e.register(spending_policy::SpendingLimitPolicyContract, ());
+        let spending = if lib { e.register(SpendLib, ()) } else { e.register(spending_policy::SpendingLimitPolicyContract, ()) };
         let m = e.register(AccountMock, ());
-        let accts = std::vec![m, Address::generate(&e), Address::generate(&e), Address::generate(&e)];
-        let v1 = Address::generate(&e); let v2 = Address::generate(&e);
+        let accts = std::vec![m, Address::generate(&e), Address::generate(&e), Address::generate(&e), simple.clone(), weighted.clone(), spending.clone()];
+        let v1 = e.register(VerifierOk, ()); let v2 = Address::generate(&e);
+        let gaddr = MuxedAddress::generate(&e).address();
         let sgs = std::vec![
             Signer::Delegated(Address::generate(&e)), Signer::Delegated(Address::generate(&e)), Signer::Delegated(Address::generate(&e)),
             Signer::External(v1.clone(), Bytes::from_array(&e, &[1u8; 32])), Signer::External(v1.clone(), Bytes::from_array(&e, &[2u8; 32])),
             Signer::External(v2.clone(), Bytes::from_array(&e, &[1u8; 32])),
+            Signer::External(v1.clone(), Bytes::new(&e)), Signer::External(v1.clone(), Bytes::from_array(&e, &[0u8; 32])), Signer::External(v1.clone(), Bytes::from_array(&e, &[0xffu8; 32])),
+            Signer::Delegated(accts[1].clone()), Signer::Delegated(spending.clone()), Signer::Delegated(gaddr.clone()),
         ];
         let toks = [Address::generate(&e), Address::generate(&e)];
-        World { e, pol: [simple, weighted, spending], accts, sgs, toks, now: start,
+        World { e, pol: [simple, weighted, spending], accts, sgs, toks, now: start, oa, rids, gaddr, lib, flav: None,
                 prev_hist: std::vec![std::vec![]; na * nr], items: std::vec![], max_hist: sl::MAX_HISTORY_ENTRIES, prev_lp: std::vec![None; na * nr], na, nr, prev_full: { let nk = na * nr; let nones: std::vec::Vec<String> = std::vec!["None".to_string(); nk]; format!("{}{}{}", "-;".repeat(nk), list(&nones), list(&nones)) } }
     }
     fn pol_addr(&self, p: Pol) -> &Address { match p { Pol::S => &self.pol[0], Pol::W => &self.pol[1], Pol::L => &self.pol[2] } }
+    /// the rule passed along with a call; only its id (and, for the simple policy's configuration calls, the NUMBER of
+    /// its signers) matters - every other field is varied (K2: empty / long names, expired or far validity, all three
+    /// context types; K5: the policy list naming the asked policy itself / all three policies)
     fn rule(&self, rid: u32, rs: &[usize]) -> ContextRule {
-        let mut signers = Vec::new(&self.e);
+        let e = &self.e;
+        let mut signers = Vec::new(e);
         for &i in rs { signers.push_back(self.sgs[i].clone()); }
-        ContextRule { id: rid, context_type: ContextRuleType::Default, name: SString::from_str(&self.e, "rule"), signers, policies: Vec::new(&self.e), valid_until: None }
+        let f = self.flav.unwrap_or(self.items.len() % 5);
+        let (context_type, name, policies, valid_until) = match f {
+            1 => (ContextRuleType::CallContract(self.toks[0].clone()), "", std::vec![], Some(0u32)),
+            2 => (ContextRuleType::CreateContract(BytesN::from_array(e, &[0u8; 32])), "a-rule-with-a-rather-long-name", std::vec![0usize, 1, 2], Some(u32::MAX)),
+            3 => (ContextRuleType::CallContract(self.pol[2].clone()), "rule", std::vec![2], Some(self.now.saturating_sub(1))),
+            4 => (ContextRuleType::CallContract(self.accts[1].clone()), "RULE", std::vec![1, 1], Some(self.now)),
+            _ => (ContextRuleType::Default, "rule", std::vec![], None),
+        };
+        let mut pv = Vec::new(e);
+        for i in policies { pv.push_back(self.pol[i].clone()); }
+        ContextRule { id: rid, context_type, name: SString::from_str(e, name), signers, policies: pv, valid_until }
     }
     fn signers(&self, ix: &[usize]) -> Vec<Signer> { let mut v = Vec::new(&self.e); for &i in ix { v.push_back(self.sgs[i].clone()); } v }
-    fn ctx(&self, c: &Cx) -> Context {
+    fn tok_addr(&self, p: Pol, t: usize) -> Address {
+        match t { 0 | 1 => self.toks[t].clone(), 2 => self.accts[0].clone(), 3 => self.pol_addr(p).clone(), 4 => self.accts[1].clone(), 5 => self.accts[2].clone(), _ => self.accts[3].clone() }
+    }
+    fn ctx(&self, p: Pol, c: &Cx) -> Context {
         let e = &self.e;
         let mut args: Vec<Val> = Vec::new(e);
         for a in &c.args {
             args.push_back(match a {
                 A::I(v) => v.into_val(e), A::U32(v) => v.into_val(e), A::Addr => self.accts[3].into_val(e), A::U128(v) => v.into_val(e),
                 A::I64(v) => v.into_val(e), A::Void => ().into_val(e), A::Sym => Symbol::new(e, "amount").into_val(e), A::U64(v) => v.into_val(e),
+                A::Acct(i) => self.accts[*i].into_val(e), A::Pol => self.pol_addr(p).into_val(e), A::Tok(t) => self.tok_addr(p, *t).into_val(e),
+                A::Muxed(id) => MuxedAddress::new(self.gaddr.clone(), *id).into_val(e), A::G => self.gaddr.into_val(e),
             });
         }
         let exe = ContractExecutable::Wasm(BytesN::from_array(e, &[9u8; 32]));
         let salt = BytesN::from_array(e, &[1u8; 32]);
         match c.kind {
-            0 => Context::Contract(ContractContext { contract: self.toks[c.tok].clone(), fn_name: Symbol::new(e, FNAMES[c.f]), args }),
+            0 => Context::Contract(ContractContext { contract: self.tok_addr(p, c.tok), fn_name: Symbol::new(e, FNAMES[c.f]), args }),
             1 => Context::CreateContractHostFn(CreateContractHostFnContext { executable: exe, salt }),
             _ => Context::CreateContractWithCtorHostFn(CreateContractWithConstructorHostFnContext { executable: exe, salt, constructor_args: args }),
         }
@@ -222,8 +339,8 @@ impl World {
         let (mut os, mut ow, mut ol) = (std::vec![], std::vec![], std::vec![]);
         let mut full = String::new();
         let mut k = 0usize;
-        for a in 0..self.na {
-            for &rid in RIDS[..self.nr].iter() {
+        for a in self.oa.clone() {
+            for rid in self.rids.clone() {
                 let acct = self.accts[a].clone();
                 // simple
                 let r = e.try_invoke_contract::<u32, Error>(&self.pol[0], &Symbol::new(&e, "get_threshold"), (rid, acct.clone()).into_val(&e));
@@ -272,13 +389,53 @@ impl World {
         self.prev_full = full;
         if same { format!("(ESame {})", list(&evs)) } else { format!("(EFull {} {} {} {})", list(&os), list(&ow), list(&ol), list(&evs)) }
     }
-    fn key_ix(&self, a: usize, r: usize) -> Option<usize> { if a < self.na && r < self.nr { Some(a * self.nr + r) } else { None } }
+    fn key_ix(&self, a: usize, r: usize) -> Option<usize> { if r < self.nr { self.oa.iter().position(|x| *x == a).map(|i| i * self.nr + r) } else { None } }
     fn hist_len(&self, a: usize, r: usize) -> usize { self.key_ix(a, r).map(|k| self.prev_hist[k].len()).unwrap_or(0) }
 
     fn record(&mut self, out: &mut Out, label: &str, call: String, outcome: &str, evs: std::vec::Vec<String>) {
         out.case(label, &call);
+        if !label.starts_with("advance") { out.label(if self.lib { "path/library-wrapper" } else { "path/example-contract" }); }
         let ob = self.observe(evs);
         self.items.push(format!("({}, {}, {})", call, outcome, ob));
+    }
+
+    // ---------- the real smart account (account 7) ----------
+    /// deploys examples/multisig-smart-account/account with signers 3 and 4 and the spending policy; its constructor
+    /// installs the policy for rule id 0 with the account as invoker
+    fn deploy_account(&mut self, out: &mut Out, limit: i128, period: u32) {
+        let e = self.e.clone();
+        assert!(self.accts.len() == 7);
+        let mut signers: Vec<Signer> = Vec::new(&e);
+        signers.push_back(self.sgs[3].clone()); signers.push_back(self.sgs[4].clone());
+        let mut pols: Map<Address, Val> = Map::new(&e);
+        pols.set(self.pol[2].clone(), sl::SpendingLimitAccountParams { spending_limit: limit, period_ledgers: period }.into_val(&e));
+        e.mock_auths(&[]);
+        let acc = e.register(MultisigContract, (signers, pols));
+        self.accts.push(acc);
+        let evs = self.events();
+        let call = format!("LInstall {} {} {} {} {}", list(&[n(7)]), n(7), n(self.rids[0] as u64), z(limit), period);
+        out.label("l_install/by-real-account-constructor");
+        self.record(out, "l_install/ok", call, "Ok RUnit", evs);
+    }
+    /// __check_auth of the real account on `cxs`, signed by the signers `sg` (a subset of 3, 4 in that order)
+    fn check_auth(&mut self, out: &mut Out, cxs: &[Cx], sg: &[usize]) -> bool {
+        let e = self.e.clone();
+        let acc = self.accts[7].clone();
+        let payload = BytesN::from_array(&e, &[(self.items.len() % 251) as u8; 32]);
+        let mut m: Map<Signer, Bytes> = Map::new(&e);
+        for &i in sg { m.set(self.sgs[i].clone(), Bytes::new(&e)); }
+        let mut ctxs: Vec<Context> = Vec::new(&e);
+        for cx in cxs { ctxs.push_back(self.ctx(Pol::L, cx)); }
+        e.mock_auths(&[]);
+        let r = e.try_invoke_contract_check_auth::<SmartAccountError>(&acc, &payload, Signatures(m).into_val(&e), &ctxs);
+        let ok = matches!(r, Ok(()));
+        let evs = self.events();
+        let call = format!("Enforce PL {} {} {} {} {}", list(&[n(7)]), n(7), n(self.rids[0] as u64),
+                           list(&cxs.iter().map(|c| c.coq()).collect::<std::vec::Vec<_>>()), list(&sg.iter().map(|i| n(*i as u64)).collect::<std::vec::Vec<_>>()));
+        out.label(if ok { "l_check_auth/ok" } else { "l_check_auth/fail" });
+        let lab = format!("l_{}/{}", if cxs.len() == 1 { "enforce" } else { "batch" }, if ok { "ok" } else { "fail" });
+        self.record(out, &lab, call, if ok { "Ok RUnit" } else { "Fail" }, evs);
+        ok
     }
 
     // ---------- calls ----------
@@ -292,23 +449,23 @@ impl World {
         let e = self.e.clone();
         e.mock_auths(&[]);
         let rs: &[usize] = match (self.items.len() + sg.len()) % 4 { 0 => &[], 1 => &[0, 1, 2], 2 => &[5], _ => &[3, 4, 0, 1] };
-        let args: Vec<Val> = (self.ctx(cx), self.signers(sg), self.rule(RIDS[r], rs), self.accts[a].clone()).into_val(&e);
+        let args: Vec<Val> = (self.ctx(p, cx), self.signers(sg), self.rule(self.rids[r], rs), self.accts[a].clone()).into_val(&e);
         let res = e.try_invoke_contract::<bool, Error>(self.pol_addr(p), &Symbol::new(&e, "can_enforce"), args);
         let evs = self.events();
         let (o, lab, ret) = match res { Ok(Ok(true)) => ("Ok (RBool true)", "true", Some(true)), Ok(Ok(false)) => ("Ok (RBool false)", "false", Some(false)), _ => ("Fail", "trap", None) };
-        let call = format!("CanEnforce {} {} {} {} {}", p.coq(), n(a as u64), n(RIDS[r] as u64), cx.coq(), list(&sg.iter().map(|i| n(*i as u64)).collect::<std::vec::Vec<_>>()));
+        let call = format!("CanEnforce {} {} {} {} {}", p.coq(), n(a as u64), n(self.rids[r] as u64), cx.coq(), list(&sg.iter().map(|i| n(*i as u64)).collect::<std::vec::Vec<_>>()));
         self.record(out, &format!("{}_can/{}", p.tag(), lab), call, o, evs);
         ret
     }
     fn enforce(&mut self, out: &mut Out, p: Pol, auth: &Auth, a: usize, r: usize, cxs: &[Cx], sg: &[usize]) -> bool {
         let e = self.e.clone();
         let rs: &[usize] = match (self.items.len() + sg.len()) % 4 { 0 => &[0, 1, 2], 1 => &[], 2 => &[3, 4, 0, 1], _ => &[5] };
-        let rule = self.rule(RIDS[r], rs);
+        let rule = self.rule(self.rids[r], rs);
         let sgv = self.signers(sg);
         let acct = self.accts[a].clone();
         let policy = self.pol_addr(p).clone();
         let ok = if cxs.len() == 1 && !auth.via {
-            let args: Vec<Val> = (self.ctx(&cxs[0]), sgv, rule, acct).into_val(&e);
+            let args: Vec<Val> = (self.ctx(p, &cxs[0]), sgv, rule, acct).into_val(&e);
             self.invoke(&policy, "enforce", args, auth)
         } else {
             // batch through the account mock: one mock-auth entry per (address, context)
@@ -316,7 +473,7 @@ impl World {
             let mut ctxs: Vec<Context> = Vec::new(&e);
             let mut invs: std::vec::Vec<MockAuthInvoke> = std::vec![];
             for cx in cxs {
-                let c = self.ctx(cx);
+                let c = self.ctx(p, cx);
                 ctxs.push_back(c.clone());
                 invs.push(MockAuthInvoke { contract: &policy, fn_name: "enforce", args: (c, sgv.clone(), rule.clone(), acct.clone()).into_val(&e), sub_invokes: &[] });
             }
@@ -335,7 +492,7 @@ impl World {
                 (live.len() as i64, live.iter().fold(0i128, |s, x| s.saturating_add(x.0)), Some(lim)) }
             None => (-1, 0, None),
         };
-        let call = format!("Enforce {} {} {} {} {} {}", p.coq(), auth.coq(), n(a as u64), n(RIDS[r] as u64),
+        let call = format!("Enforce {} {} {} {} {} {}", p.coq(), auth.coq(), n(a as u64), n(self.rids[r] as u64),
                            list(&cxs.iter().map(|c| c.coq()).collect::<std::vec::Vec<_>>()), list(&sg.iter().map(|i| n(*i as u64)).collect::<std::vec::Vec<_>>()));
         let kind = if cxs.len() == 1 { "enforce" } else { "batch" };
         let lab = format!("{}_{}/{}", p.tag(), kind, if ok { "ok" } else if !auth.has(a) { "fail-noauth" } else { "fail" });
@@ -373,21 +530,21 @@ impl World {
         ok
     }
     fn uninstall(&mut self, out: &mut Out, p: Pol, auth: &Auth, a: usize, r: usize) -> bool {
-        let args: Vec<Val> = (self.rule(RIDS[r], &[0]), self.accts[a].clone()).into_val(&self.e);
-        let call = format!("Uninstall {} {} {} {}", p.coq(), auth.coq(), n(a as u64), n(RIDS[r] as u64));
+        let args: Vec<Val> = (self.rule(self.rids[r], &[0]), self.accts[a].clone()).into_val(&self.e);
+        let call = format!("Uninstall {} {} {} {}", p.coq(), auth.coq(), n(a as u64), n(self.rids[r] as u64));
         self.cfg_call(out, p, "uninstall", "uninstall", args, auth, a, call)
     }
     fn s_install(&mut self, out: &mut Out, auth: &Auth, a: usize, r: usize, rs: &[usize], t: u32, set: bool) -> bool {
         let e = self.e.clone();
         let rsl = list(&rs.iter().map(|i| n(*i as u64)).collect::<std::vec::Vec<_>>());
         if set {
-            let args: Vec<Val> = (t, self.rule(RIDS[r], rs), self.accts[a].clone()).into_val(&e);
-            let call = format!("SSetThreshold {} {} {} {} {}", auth.coq(), n(a as u64), n(RIDS[r] as u64), rsl, t);
+            let args: Vec<Val> = (t, self.rule(self.rids[r], rs), self.accts[a].clone()).into_val(&e);
+            let call = format!("SSetThreshold {} {} {} {} {}", auth.coq(), n(a as u64), n(self.rids[r] as u64), rsl, t);
             self.cfg_call(out, Pol::S, "set_threshold", "set_threshold", args, auth, a, call)
         } else {
             let prm = stellar_accounts::policies::simple_threshold::SimpleThresholdAccountParams { threshold: t };
-            let args: Vec<Val> = (prm, self.rule(RIDS[r], rs), self.accts[a].clone()).into_val(&e);
-            let call = format!("SInstall {} {} {} {} {}", auth.coq(), n(a as u64), n(RIDS[r] as u64), rsl, t);
+            let args: Vec<Val> = (prm, self.rule(self.rids[r], rs), self.accts[a].clone()).into_val(&e);
+            let call = format!("SInstall {} {} {} {} {}", auth.coq(), n(a as u64), n(self.rids[r] as u64), rsl, t);
             self.cfg_call(out, Pol::S, "install", "install", args, auth, a, call)
         }
     }
@@ -397,36 +554,35 @@ impl World {
         let mut seen: std::vec::Vec<(usize, u32)> = std::vec![];
         for &(i, w) in ws { m.set(self.sgs[i].clone(), w); seen.retain(|x| x.0 != i); seen.push((i, w)); }
         let prm = wt::WeightedThresholdAccountParams { signer_weights: m, threshold: t };
-        let args: Vec<Val> = (prm, self.rule(RIDS[r], &[0, 1]), self.accts[a].clone()).into_val(&e);
+        let args: Vec<Val> = (prm, self.rule(self.rids[r], &[0, 1]), self.accts[a].clone()).into_val(&e);
         let wl = list(&seen.iter().map(|(i, w)| format!("({}, {})", n(*i as u64), w)).collect::<std::vec::Vec<_>>());
-        let call = format!("WInstall {} {} {} {} {}", auth.coq(), n(a as u64), n(RIDS[r] as u64), wl, t);
+        let call = format!("WInstall {} {} {} {} {}", auth.coq(), n(a as u64), n(self.rids[r] as u64), wl, t);
         self.cfg_call(out, Pol::W, "install", "install", args, auth, a, call)
     }
     fn w_set_threshold(&mut self, out: &mut Out, auth: &Auth, a: usize, r: usize, t: u32) -> bool {
-        let args: Vec<Val> = (t, self.rule(RIDS[r], &[0, 1]), self.accts[a].clone()).into_val(&self.e);
-        let call = format!("WSetThreshold {} {} {} {}", auth.coq(), n(a as u64), n(RIDS[r] as u64), t);
+        let args: Vec<Val> = (t, self.rule(self.rids[r], &[0, 1]), self.accts[a].clone()).into_val(&self.e);
+        let call = format!("WSetThreshold {} {} {} {}", auth.coq(), n(a as u64), n(self.rids[r] as u64), t);
         self.cfg_call(out, Pol::W, "set_threshold", "set_threshold", args, auth, a, call)
     }
     fn w_set_weight(&mut self, out: &mut Out, auth: &Auth, a: usize, r: usize, sg: usize, w: u32) -> bool {
-        let args: Vec<Val> = (self.sgs[sg].clone(), w, self.rule(RIDS[r], &[0, 1]), self.accts[a].clone()).into_val(&self.e);
-        let call = format!("WSetWeight {} {} {} {} {}", auth.coq(), n(a as u64), n(RIDS[r] as u64), n(sg as u64), w);
+        let args: Vec<Val> = (self.sgs[sg].clone(), w, self.rule(self.rids[r], &[0, 1]), self.accts[a].clone()).into_val(&self.e);
+        let call = format!("WSetWeight {} {} {} {} {}", auth.coq(), n(a as u64), n(self.rids[r] as u64), n(sg as u64), w);
         self.cfg_call(out, Pol::W, "set_signer_weight", "set_weight", args, auth, a, call)
     }
     fn l_install(&mut self, out: &mut Out, auth: &Auth, a: usize, r: usize, limit: i128, period: u32) -> bool {
         let prm = sl::SpendingLimitAccountParams { spending_limit: limit, period_ledgers: period };
-        let args: Vec<Val> = (prm, self.rule(RIDS[r], &[0, 1]), self.accts[a].clone()).into_val(&self.e);
-        let call = format!("LInstall {} {} {} {} {}", auth.coq(), n(a as u64), n(RIDS[r] as u64), z(limit), period);
+        let args: Vec<Val> = (prm, self.rule(self.rids[r], &[0, 1]), self.accts[a].clone()).into_val(&self.e);
+        let call = format!("LInstall {} {} {} {} {}", auth.coq(), n(a as u64), n(self.rids[r] as u64), z(limit), period);
         self.cfg_call(out, Pol::L, "install", "install", args, auth, a, call)
     }
     fn l_set_limit(&mut self, out: &mut Out, auth: &Auth, a: usize, r: usize, limit: i128) -> bool {
-        let args: Vec<Val> = (limit, self.rule(RIDS[r], &[0, 1]), self.accts[a].clone()).into_val(&self.e);
-        let call = format!("LSetLimit {} {} {} {}", auth.coq(), n(a as u64), n(RIDS[r] as u64), z(limit));
+        let args: Vec<Val> = (limit, self.rule(self.rids[r], &[0, 1]), self.accts[a].clone()).into_val(&self.e);
+        let call = format!("LSetLimit {} {} {} {}", auth.coq(), n(a as u64), n(self.rids[r] as u64), z(limit));
         self.cfg_call(out, Pol::L, "set_spending_limit", "set_limit", args, auth, a, call)
     }
 
     fn finish(self, out: &mut Out, desc: &str, start: u32) {
-        let nr = self.nr;
-        let keys: std::vec::Vec<String> = (0..self.na).flat_map(|a| RIDS[..nr].iter().map(move |r| format!("({}, {})", n(a as u64), n(*r as u64)))).collect();
+        let keys: std::vec::Vec<String> = self.oa.iter().flat_map(|a| self.rids.iter().map(move |r| format!("({}, {})", n(*a as u64), n(*r as u64)))).collect();
         let sgs: std::vec::Vec<String> = (0..NSG).map(|i| n(i as u64)).collect();
         let hdr = format!("(mkhdr {} {} {} {})", self.max_hist, start, list(&keys), list(&sgs));
         let ncalls = self.items.len();
@@ -459,7 +615,7 @@ fn malformed_ctx(rng: &mut Rng, amt: i128) -> Cx {
     match rng.below(12) {
         0 => Cx { tok: 0, kind: 1, f: 0, args: std::vec![] },
         1 => Cx { tok: 0, kind: 2, f: 0, args: std::vec![A::Addr, A::Addr, A::I(amt)] },
-        2 => Cx { tok: 0, kind: 0, f: 1 + rng.below(5) as usize, args: std::vec![A::Addr, A::Addr, A::I(amt)] },
+        2 => Cx { tok: 0, kind: 0, f: 1 + rng.below(FNAMES.len() as u64 - 1) as usize, args: std::vec![A::Addr, A::Addr, A::I(amt)] },
         3 => Cx { tok: 0, kind: 0, f: 0, args: std::vec![A::Addr, A::Addr] },
         4 => Cx { tok: 0, kind: 0, f: 0, args: std::vec![] },
         5 => Cx { tok: 0, kind: 0, f: 0, args: std::vec![A::Addr, A::Addr, A::U32(amt as u32)] },
@@ -475,7 +631,17 @@ fn malformed_ctx(rng: &mut Rng, amt: i128) -> Cx {
 fn transfer_ctx(rng: &mut Rng, amt: i128) -> Cx {
     let mut c = Cx::transfer_t(rng.below(2) as usize, amt);
     match rng.below(8) { 0 => c.args.push(A::I(7)), 1 => { c.args[0] = A::I(1); c.args[1] = A::U32(2); } 2 => c.args.push(A::Void), _ => {} }
+    // K1/K5: special addresses as the token contract called and as the parties of the transfer (none of them matters)
+    if rng.chance(1, 3) { c.tok = rng.below(NTOK as u64) as usize; }
+    if rng.chance(1, 3) {
+        let from = party(rng);
+        let to = if rng.chance(1, 3) { from.clone() } else { party(rng) };
+        c.args[0] = from; c.args[1] = to;
+    }
     c
+}
+fn party(rng: &mut Rng) -> A {
+    match rng.below(8) { 0 | 1 => A::Acct(rng.below(7) as usize), 2 => A::Pol, 3 => A::Tok(rng.below(NTOK as u64) as usize), 4 => A::Muxed(*rng.pick(&[0u64, 1, u64::MAX])), 5 => A::G, _ => A::Addr }
 }
 
 /// can_enforce immediately followed by enforce of the same context in the same state
@@ -722,11 +888,12 @@ fn gen_history_bound(w: &mut World, out: &mut Out, rng: &mut Rng, a: usize) {
 }
 
 /// scripted scenarios (window edges, overflow, configuration boundaries)
-fn directed(out: &mut Out) {
+fn directed(out: &mut Out, lib: bool) {
     let me = |a: usize| Auth { via: a == 0, mock: if a == 0 { std::vec![] } else { std::vec![a] } };
+    let tag = if lib { "-lib" } else { "" };
     // --- simple ---
     {
-        let mut w = World::new(1);
+        let mut w = World::special(1, &[0, 1, 2], &RIDS, lib);
         let a1 = me(1);
         w.can_enforce(out, Pol::S, 1, 0, &Cx::transfer(1), &[0, 1]);
         w.enforce(out, Pol::S, &a1, 1, 0, &[Cx::transfer(1)], &[0, 1]);
@@ -755,10 +922,10 @@ fn directed(out: &mut Out) {
         w.s_install(out, &me(0), 0, 0, &[0, 1], 2, false);
         w.enforce(out, Pol::S, &me(0), 0, 0, &[Cx::transfer(1), Cx { tok: 0, kind: 1, f: 0, args: std::vec![] }], &[3, 4]);
         w.enforce(out, Pol::S, &Auth { via: false, mock: std::vec![1, 2, 3] }, 0, 0, &[Cx::transfer(1)], &[3, 4]);
-        w.finish(out, "directed-simple", 1);
+        w.finish(out, &format!("directed-simple{}", tag), 1);
     }
-    // --- weighted ---
-    {
+    // --- weighted (the library functions behind the harness wrapper: one path only) ---
+    if !lib {
         let mut w = World::new(7);
         let a2 = me(2);
         w.w_install(out, &a2, 2, 0, &[(0, u32::MAX), (1, 1)], 5);                 // total overflows
@@ -795,7 +962,8 @@ fn directed(out: &mut Out) {
     }
     // --- spending: rolling window edges ---
     for start in [1u32, 100] {
-        let mut w = World::new(start);
+        if lib && start != 1 { continue; }
+        let mut w = World::special(start, &[0, 1, 2], &RIDS, lib);
         let a1 = me(1);
         let sg = [0usize];
         w.l_install(out, &a1, 1, 0, 0, 10);
@@ -857,7 +1025,7 @@ fn directed(out: &mut Out) {
         w.advance(out, 100000);
         step(&mut w, out, 2);
         step(&mut w, out, 1);
-        w.finish(out, &format!("directed-spending-start{}", start), start);
+        w.finish(out, &format!("directed-spending-start{}{}", start, tag), start);
     }
 }
 
@@ -1056,14 +1224,444 @@ fn directed_window(out: &mut Out) {
     }
 }
 
+
+// =============================================================================================
+// K1 .. K6 directed scenarios (one label per situation, all deterministic)
+// =============================================================================================
+fn me(a: usize) -> Auth { Auth { via: a == 0, mock: if a == 0 { std::vec![] } else { std::vec![a] } } }
+fn noauth() -> Auth { Auth { via: false, mock: std::vec![] } }
+
+/// K1 / K5: special addresses as the PARTIES of the context (token contract called = the account itself / the
+/// policy itself / another registered contract; from / to = account, policy, token, a muxed destination, a G
+/// account; from == to == account == token).  None of them plays any role: ONE budget, every transfer counts.
+fn directed_parties(out: &mut Out) {
+    for (a, lib) in [(1usize, false), (0usize, true)] {
+        let mut w = World::special(30, &[a], &[7], lib);
+        let au = me(a); let sg = [0usize];
+        let ta = tok_of_acct(a);
+        let variants: std::vec::Vec<(&str, Cx)> = std::vec![
+            ("tok=account", Cx::transfer_t(ta, 10)),
+            ("tok=policy", Cx::transfer_t(3, 10)),
+            ("tok=contract", Cx::transfer_t(2, 10)),
+            ("to=account", Cx::transfer_p(0, A::Addr, A::Acct(a), 10)),
+            ("from=account", Cx::transfer_p(0, A::Acct(a), A::Addr, 10)),
+            ("from=to=account", Cx::transfer_p(1, A::Acct(a), A::Acct(a), 10)),
+            ("from=to=tok=account", Cx::transfer_p(ta, A::Acct(a), A::Acct(a), 10)),
+            ("to=policy", Cx::transfer_p(0, A::Acct(a), A::Pol, 10)),
+            ("from=to=tok=policy", Cx::transfer_p(3, A::Pol, A::Pol, 10)),
+            ("to=token", Cx::transfer_p(0, A::Acct(a), A::Tok(0), 10)),
+            ("to=muxed", Cx::transfer_p(0, A::Acct(a), A::Muxed(0), 10)),
+            ("to=muxed-maxid", Cx::transfer_p(1, A::Acct(a), A::Muxed(u64::MAX), 10)),
+            ("from=to=g", Cx::transfer_p(0, A::G, A::G, 10)),
+            ("from!=to-others", Cx::transfer_p(0, A::Acct(3), A::Acct(2), 10)),
+        ];
+        let nv = variants.len() as i128;
+        w.l_install(out, &au, a, 0, 10 * nv, 50);
+        // each variant spends 10 of the ONE budget ...
+        for (name, cx) in &variants {
+            w.can_enforce(out, Pol::L, a, 0, cx, &sg);
+            if w.enforce(out, Pol::L, &au, a, 0, &[cx.clone()], &sg) { out.label(&format!("l_ctx/{}", name)); }
+            if w.items.len() % 3 == 0 { w.advance(out, 1); }
+        }
+        // ... so that now every variant, even of amount 1, is refused (and of amount 0 accepted)
+        for (name, cx) in &variants {
+            let mut c1 = cx.clone(); let l = c1.args.len(); c1.args[l - 1] = A::I(1);
+            let r1 = w.can_enforce(out, Pol::L, a, 0, &c1, &sg);
+            let r2 = w.enforce(out, Pol::L, &au, a, 0, &[c1], &sg);
+            if r1 == Some(false) && !r2 { out.label(&format!("l_ctx/refused-{}", name)); }
+        }
+        // the same parties inside one batch, after the window has emptied: all of them count
+        w.advance(out, 50);
+        let batch: std::vec::Vec<Cx> = variants.iter().map(|v| v.1.clone()).collect();
+        let via = Auth { via: true, mock: if a == 0 { std::vec![] } else { std::vec![a] } };
+        let mut over = batch.clone(); over.push(Cx::transfer_t(ta, 1));
+        w.enforce(out, Pol::L, &via, a, 0, &over, &sg);            // 10 * nv + 1: refused as a whole
+        if w.enforce(out, Pol::L, &via, a, 0, &batch, &sg) { out.label("l_ctx/batch-all-parties"); }
+        w.enforce(out, Pol::L, &au, a, 0, &[Cx::transfer_t(3, 1)], &sg);
+        // the threshold policies do not look at the context at all
+        w.s_install(out, &au, a, 0, &[0, 1], 2, false);
+        w.w_install(out, &au, a, 0, &[(0, 3), (1, 4)], 7);
+        for (_, cx) in variants.iter().step_by(3) {
+            w.can_enforce(out, Pol::S, a, 0, cx, &[0]);
+            w.can_enforce(out, Pol::S, a, 0, cx, &[0, 1]);
+            w.enforce(out, Pol::S, &au, a, 0, &[cx.clone()], &[1, 0]);
+            w.can_enforce(out, Pol::W, a, 0, cx, &[1]);
+            w.can_enforce(out, Pol::W, a, 0, cx, &[0, 1]);
+            w.enforce(out, Pol::W, &au, a, 0, &[cx.clone()], &[0, 1]);
+        }
+        w.finish(out, if lib { "directed-parties-lib" } else { "directed-parties" }, 30);
+    }
+}
+
+/// K1: special addresses as the ACCOUNT: the policy contract's own address and the other two policy
+/// contracts.  Nobody can authorise for them here (a policy contract is never the invoker of itself and has no
+/// __check_auth), so every state-changing entry point must fail and every read-only answer must be `false`;
+/// the AccountMock (account 0) is the registered contract that legitimately authorises as the invoker.
+fn directed_special_accounts(out: &mut Out) {
+    let mut w = World::special(5, &[0, 4, 5, 6], &[0, 1], false);
+    let sg = [0usize, 1];
+    // the legitimate contract account first (so that the universe is not empty of state)
+    w.s_install(out, &me(0), 0, 0, &[0, 1], 2, false);
+    w.w_install(out, &me(0), 0, 0, &[(0, 1), (1, 1)], 2);
+    w.l_install(out, &me(0), 0, 0, 100, 10);
+    out.label("acct/registered-contract-as-invoker");
+    for (pi, p) in [Pol::S, Pol::W, Pol::L].iter().enumerate() {
+        for &x in A_POL.iter() {
+            let who = if x == A_POL[pi] { "self" } else { "other-policy" };
+            for au in [noauth(), Auth { via: true, mock: std::vec![] }, Auth { via: false, mock: std::vec![3] }, Auth { via: true, mock: std::vec![1, 2] }] {
+                let ok = match p {
+                    Pol::S => w.s_install(out, &au, x, 0, &[0, 1], 1, false),
+                    Pol::W => w.w_install(out, &au, x, 0, &[(0, 1), (1, 1)], 1),
+                    Pol::L => w.l_install(out, &au, x, 0, 100, 10),
+                };
+                if !ok { out.label(&format!("{}_install/{}-refused", p.tag(), who)); }
+            }
+            // the simple policy's set_threshold needs no installation: the one path that could create an entry
+            let ok2 = match p {
+                Pol::S => w.s_install(out, &noauth(), x, 1, &[0, 1], 1, true),
+                Pol::W => w.w_set_threshold(out, &Auth { via: true, mock: std::vec![] }, x, 1, 1) || w.w_set_weight(out, &noauth(), x, 1, 0, 1),
+                Pol::L => w.l_set_limit(out, &noauth(), x, 1, 5),
+            };
+            if !ok2 { out.label(&format!("{}_set/{}-refused", p.tag(), who)); }
+            let c = w.can_enforce(out, *p, x, 0, &Cx::transfer_t(3, 1), &sg);
+            let e1 = w.enforce(out, *p, &noauth(), x, 0, &[Cx::transfer_t(3, 1)], &sg);
+            let e2 = w.enforce(out, *p, &Auth { via: true, mock: std::vec![] }, x, 1, &[Cx::transfer(0), Cx::transfer(0)], &sg);
+            let u = w.uninstall(out, *p, &noauth(), x, 0);
+            if c == Some(false) && !e1 && !e2 && !u { out.label(&format!("{}_acct/{}-inert", p.tag(), who)); }
+        }
+    }
+    // the contract account is untouched by all of this and still works
+    w.can_enforce(out, Pol::S, 0, 0, &Cx::transfer(1), &sg);
+    w.enforce(out, Pol::W, &me(0), 0, 0, &[Cx::transfer(1)], &sg);
+    w.enforce(out, Pol::L, &me(0), 0, 0, &[Cx::transfer_t(2, 100)], &sg);
+    w.enforce(out, Pol::L, &me(0), 0, 0, &[Cx::transfer_t(2, 1)], &sg);
+    w.finish(out, "directed-special-accounts", 5);
+}
+
+/// K2: rule ids 0, 1, 2, 2^16, 2^31 - 1, 2^31, u32::MAX - 1, u32::MAX side by side on one account, each with its
+/// own parameters; removing one leaves the others alone
+fn catalogue_rule_ids(out: &mut Out) {
+    let rids = [0u32, 1, 2, 65_536, 0x7fff_ffff, 0x8000_0000, u32::MAX - 1, u32::MAX];
+    let mut w = World::special(9, &[1], &rids, false);
+    let au = me(1);
+    for r in 0..rids.len() {
+        let t = 1 + (r as u32 % 3);
+        w.s_install(out, &au, 1, r, &[0, 1, 2], t, false);
+        w.w_install(out, &au, 1, r, &[(0, r as u32 + 1), (1, 1)], r as u32 + 1);
+        w.l_install(out, &au, 1, r, 100 + r as i128, 10 + r as u32);
+    }
+    for r in 0..rids.len() {
+        let t = 1 + (r % 3);
+        let under: std::vec::Vec<usize> = (0..t - 1).collect(); let met: std::vec::Vec<usize> = (0..t).collect();
+        let a1 = w.can_enforce(out, Pol::S, 1, r, &Cx::transfer(1), &under);
+        let a2 = w.enforce(out, Pol::S, &au, 1, r, &[Cx::transfer(1)], &met);
+        let b1 = w.can_enforce(out, Pol::W, 1, r, &Cx::transfer(1), &[1]);
+        let b2 = w.enforce(out, Pol::W, &au, 1, r, &[Cx::transfer(1)], &[0]);
+        let c0 = w.can_enforce(out, Pol::L, 1, r, &Cx::transfer(101 + r as i128), &[0]);
+        let c1 = w.enforce(out, Pol::L, &au, 1, r, &[Cx::transfer(100 + r as i128)], &[0]);
+        let c2 = w.enforce(out, Pol::L, &au, 1, r, &[Cx::transfer(1)], &[0]);
+        if a1 == Some(false) && a2 && b1 == Some(r == 0) && b2 && c0 == Some(false) && c1 && !c2 { out.label(&format!("rid/{}", rids[r])); }
+    }
+    // rule id 0 goes away for all three policies; the seven other ids keep everything
+    for p in [Pol::S, Pol::W, Pol::L] { w.uninstall(out, p, &au, 1, 0); }
+    for r in [0usize, 1, 7] {
+        w.can_enforce(out, Pol::S, 1, r, &Cx::transfer(1), &[0, 1, 2]);
+        w.can_enforce(out, Pol::W, 1, r, &Cx::transfer(1), &[0]);
+        w.can_enforce(out, Pol::L, 1, r, &Cx::transfer(0), &[0]);
+    }
+    w.s_install(out, &au, 1, 0, &[0], 1, true);      // set_threshold on rule 0 creates only rule 0's entry
+    w.can_enforce(out, Pol::S, 1, 1, &Cx::transfer(1), &[0]);
+    w.finish(out, "catalogue-rule-ids", 9);
+}
+
+/// K2: interior "magic" amounts (10^k +- 1, 2^k +- 1, type boundaries): for each m the limit is set to exactly m
+/// with an empty window; m + 1 must be refused, m accepted, then nothing but 0 fits
+fn catalogue_amounts(out: &mut Out) {
+    let mut ms: std::vec::Vec<i128> = std::vec![1, 2, 9, 10, 11, 99, 100, 101, 255, 256, 257, 65_535, 65_536, 65_537, 999_999, 1_000_000, 1_000_001,
+        999_999_999, 1_000_000_000, 1_000_000_001, (1 << 31) - 1, 1 << 31, (1 << 31) + 1, (1i128 << 32) - 1, 1i128 << 32, (1i128 << 32) + 1,
+        1_000_000_000_000, (1i128 << 53) - 1, 1i128 << 53, (1i128 << 63) - 1, 1i128 << 63, (1i128 << 63) + 1, (1i128 << 64) - 1, 1i128 << 64, (1i128 << 64) + 1,
+        999_999_999_999_999_999, 1_000_000_000_000_000_000, 1_000_000_000_000_000_001, 10_000_000_000_000_000_000, 1i128 << 96, 1i128 << 126, i128::MAX - 1, i128::MAX];
+    ms.sort(); ms.dedup();
+    let mut w = World::special(3, &[2], &[1], false);
+    let au = me(2); let sg = [2usize];
+    w.l_install(out, &au, 2, 0, 5, 4);
+    for &m in &ms {
+        w.l_set_limit(out, &au, 2, 0, m);
+        let over = if m < i128::MAX { w.can_enforce(out, Pol::L, 2, 0, &Cx::transfer(m + 1), &sg) } else { Some(false) };
+        let fit = w.can_enforce(out, Pol::L, 2, 0, &Cx::transfer(m), &sg);
+        let ok = w.enforce(out, Pol::L, &au, 2, 0, &[Cx::transfer_t(1, m)], &sg);
+        let more = w.enforce(out, Pol::L, &au, 2, 0, &[Cx::transfer(1)], &sg);
+        if over == Some(false) && fit == Some(true) && ok && !more { out.label("l_amount/magic-exact"); }
+        w.advance(out, 4);                                      // the window empties
+    }
+    w.finish(out, "catalogue-amounts", 3);
+}
+
+/// K2: periods 1, 2 and the largest ones, two transfers in ONE ledger, the ledger where they leave the window
+fn catalogue_periods(out: &mut Out) {
+    let mut w = World::special(1000, &[1], &[1], true);
+    let au = me(1); let sg = [0usize];
+    for (name, per) in [("1", 1u32), ("2", 2), ("3", 3), ("now-1", 999), ("now", 1000), ("now+1", 1001), ("max-1", u32::MAX - 1), ("max", u32::MAX)] {
+        let per = match name { "now-1" => w.now - 1, "now" => w.now, "now+1" => w.now + 1, _ => per };
+        w.l_install(out, &au, 1, 0, 100, per);
+        let a = w.enforce(out, Pol::L, &au, 1, 0, &[Cx::transfer(60)], &sg);
+        let b0 = w.can_enforce(out, Pol::L, 1, 0, &Cx::transfer(41), &sg);         // same ledger: 60 still counts
+        let b = w.enforce(out, Pol::L, &au, 1, 0, &[Cx::transfer_t(1, 40)], &sg);
+        let c = w.can_enforce(out, Pol::L, 1, 0, &Cx::transfer(1), &sg);
+        let mut good = a && b0 == Some(false) && b && c == Some(false);
+        if per <= 3 {
+            if per > 1 { w.advance(out, per - 1); good &= w.can_enforce(out, Pol::L, 1, 0, &Cx::transfer(1), &sg) == Some(false); }   // last ledger inside
+            w.advance(out, 1);
+            good &= w.can_enforce(out, Pol::L, 1, 0, &Cx::transfer(100), &sg) == Some(true);
+            good &= w.enforce(out, Pol::L, &au, 1, 0, &[Cx::transfer(100)], &sg);
+            good &= !w.enforce(out, Pol::L, &au, 1, 0, &[Cx::transfer(1)], &sg);
+        } else {
+            w.advance(out, 7);
+            good &= !w.enforce(out, Pol::L, &au, 1, 0, &[Cx::transfer(1)], &sg);
+            good &= w.can_enforce(out, Pol::L, 1, 0, &Cx::transfer(0), &sg) == Some(true);
+        }
+        if good { out.label(&format!("l_period/{}", name)); }
+        w.uninstall(out, Pol::L, &au, 1, 0);
+    }
+    w.finish(out, "catalogue-periods", 1000);
+}
+
+/// K2 / K1: special signers (empty key, all-zero key, all-ones key, the account's own address, a registered
+/// contract, a G account): each counts like any other signer, alone and among the others
+fn catalogue_signers(out: &mut Out) {
+    let mut w = World::special(11, &[1], &[1], false);
+    let au = me(1);
+    let all: std::vec::Vec<usize> = (0..NSG).collect();
+    // weighted: weight 2^i on signer i, so that every subset has its own sum
+    let ws: std::vec::Vec<(usize, u32)> = all.iter().map(|&i| (i, 1u32 << i)).collect();
+    w.w_install(out, &au, 1, 0, &ws, 1);
+    for &i in &all {
+        w.w_set_threshold(out, &au, 1, 0, 1u32 << i);
+        let lower: std::vec::Vec<usize> = (0..i).collect();
+        let a = w.can_enforce(out, Pol::W, 1, 0, &Cx::transfer(1), &[i]);
+        let b = if i > 0 { w.can_enforce(out, Pol::W, 1, 0, &Cx::transfer(1), &lower) } else { Some(false) };
+        let c = if i >= 6 { w.enforce(out, Pol::W, &au, 1, 0, &[Cx::transfer(1)], &[i]) } else { true };
+        if a == Some(true) && b == Some(false) && c { out.label(&format!("w_signer/{}", i)); }
+    }
+    w.w_set_threshold(out, &au, 1, 0, (1u32 << NSG) - 1);
+    w.can_enforce(out, Pol::W, 1, 0, &Cx::transfer(1), &all);
+    for i in 6..NSG { let rest: std::vec::Vec<usize> = all.iter().cloned().filter(|x| *x != i).collect(); w.can_enforce(out, Pol::W, 1, 0, &Cx::transfer(1), &rest); }
+    // simple: all NSG signers needed; any one missing is refused
+    w.s_install(out, &au, 1, 0, &all, NSG as u32, false);
+    let a = w.can_enforce(out, Pol::S, 1, 0, &Cx::transfer(1), &all);
+    let mut good = a == Some(true) && w.enforce(out, Pol::S, &au, 1, 0, &[Cx::transfer(1)], &all);
+    for i in 6..NSG {
+        let rest: std::vec::Vec<usize> = all.iter().cloned().filter(|x| *x != i).collect();
+        good &= w.can_enforce(out, Pol::S, 1, 0, &Cx::transfer(1), &rest) == Some(false);
+    }
+    w.s_install(out, &au, 1, 0, &all, 1, true);
+    for i in 6..NSG { good &= w.can_enforce(out, Pol::S, 1, 0, &Cx::transfer(1), &[i]) == Some(true); good &= w.enforce(out, Pol::S, &au, 1, 0, &[Cx::transfer(1)], &[i]); }
+    if good { out.label("s_signer/special"); }
+    // threshold 1 and an EMPTY signer list; rule signers: none, duplicates
+    w.can_enforce(out, Pol::S, 1, 0, &Cx::transfer(1), &[]);
+    if !w.enforce(out, Pol::S, &au, 1, 0, &[Cx::transfer(1)], &[]) { out.label("s_enforce/fail-empty-signers-t1"); }
+    w.uninstall(out, Pol::S, &au, 1, 0);
+    w.s_install(out, &au, 1, 0, &[], 1, false);                  // no rule signers: every threshold is unreachable
+    w.s_install(out, &au, 1, 0, &[], 0, false);
+    if w.s_install(out, &au, 1, 0, &[0, 0, 1], 3, false) { out.label("s_install/ok-duplicate-rule-signers"); }
+    w.can_enforce(out, Pol::S, 1, 0, &Cx::transfer(1), &[7, 7, 7]);
+    // spending: one special signer is "some signer"
+    w.l_install(out, &au, 1, 0, 100, 10);
+    let mut good = true;
+    for i in 6..NSG { good &= w.can_enforce(out, Pol::L, 1, 0, &Cx::transfer(1), &[i]) == Some(true); good &= w.enforce(out, Pol::L, &au, 1, 0, &[Cx::transfer(1)], &[i]); }
+    if good { out.label("l_signer/special"); }
+    // function names of the context: only exactly "transfer" is a transfer
+    let mut good = true;
+    for f in 1..FNAMES.len() {
+        let cx = Cx { tok: 0, kind: 0, f, args: std::vec![A::Addr, A::Addr, A::I(1)] };
+        good &= w.can_enforce(out, Pol::L, 1, 0, &cx, &[0]) == Some(false);
+        good &= !w.enforce(out, Pol::L, &au, 1, 0, &[cx], &[0]);
+    }
+    if good { out.label("l_ctx/fn-names"); }
+    // every rule flavour (name, context type, policy list, validity): no role
+    let mut good = true;
+    for f in 0..5 {
+        w.flav = Some(f);
+        good &= w.can_enforce(out, Pol::L, 1, 0, &Cx::transfer(1), &[0]) == Some(true);
+        good &= w.enforce(out, Pol::L, &au, 1, 0, &[Cx::transfer(1)], &[0]);
+        good &= w.can_enforce(out, Pol::S, 1, 0, &Cx::transfer(1), &[0, 1, 2]) == Some(true);
+        good &= w.can_enforce(out, Pol::W, 1, 0, &Cx::transfer(1), &all) == Some(true);
+        good &= w.s_install(out, &au, 1, 0, &[0, 1, 2], 3, true);
+    }
+    w.flav = None;
+    if good { out.label("rule/flavours"); }
+    w.finish(out, "catalogue-signers", 11);
+}
+
+/// K6 / K5: multi-step histories and rewrites of a value by itself
+fn directed_histories(out: &mut Out) {
+    let mut w = World::special(40, &[2, 0], &[1, 5], false);
+    let au = me(2);
+    // ---- simple: the sibling path set_threshold creates the entry; install then finds it ----
+    if w.s_install(out, &au, 2, 0, &[0, 1, 2], 2, true) { out.label("s_set_threshold/ok-uninstalled"); }
+    if !w.s_install(out, &au, 2, 0, &[0, 1, 2], 2, false) { out.label("s_install/fail-after-set-same"); }
+    w.s_install(out, &au, 2, 0, &[0, 1, 2], 3, false);
+    w.uninstall(out, Pol::S, &au, 2, 0);
+    if w.uninstall(out, Pol::S, &au, 2, 0) { out.label("s_uninstall/ok-twice"); }
+    w.can_enforce(out, Pol::S, 2, 0, &Cx::transfer(1), &[0, 1, 2]);
+    w.s_install(out, &au, 2, 0, &[0, 1, 2], 2, false);
+    if w.s_install(out, &au, 2, 0, &[0, 1, 2], 2, true) { out.label("s_set_threshold/same"); }
+    w.can_enforce(out, Pol::S, 2, 0, &Cx::transfer(1), &[0, 1]);
+    w.can_enforce(out, Pol::S, 2, 0, &Cx::transfer(1), &[1]);
+    w.uninstall(out, Pol::S, &au, 2, 0);
+    w.s_install(out, &au, 2, 0, &[0], 1, true);
+    w.can_enforce(out, Pol::S, 2, 0, &Cx::transfer(1), &[5]);
+    w.s_install(out, &au, 2, 0, &[0], 1, false);
+    // ---- weighted: four signers, weights lowered / zeroed / restored in different orders, re-install ----
+    w.w_install(out, &au, 2, 0, &[(0, 5), (1, 5), (2, 5), (3, 5)], 20);
+    w.w_set_weight(out, &au, 2, 0, 1, 0);                           // 15 < 20: refused
+    w.w_set_threshold(out, &au, 2, 0, 15);
+    w.w_set_weight(out, &au, 2, 0, 1, 0);
+    if w.w_set_weight(out, &au, 2, 0, 1, 0) { out.label("w_set_weight/same"); }
+    if w.w_set_threshold(out, &au, 2, 0, 15) { out.label("w_set_threshold/same"); }
+    w.can_enforce(out, Pol::W, 2, 0, &Cx::transfer(1), &[0, 2, 3]);
+    w.can_enforce(out, Pol::W, 2, 0, &Cx::transfer(1), &[0, 1, 2]);
+    w.w_set_weight(out, &au, 2, 0, 3, 0);                           // 10 < 15: refused
+    w.w_set_weight(out, &au, 2, 0, 1, 5);                           // restored
+    w.w_set_weight(out, &au, 2, 0, 3, 0);
+    w.w_set_weight(out, &au, 2, 0, 0, 0);                           // 10 < 15: refused
+    w.can_enforce(out, Pol::W, 2, 0, &Cx::transfer(1), &[0, 1, 2]);
+    w.can_enforce(out, Pol::W, 2, 0, &Cx::transfer(1), &[0, 1, 3]);
+    w.enforce(out, Pol::W, &au, 2, 0, &[Cx::transfer(1)], &[2, 1, 0]);
+    w.uninstall(out, Pol::W, &au, 2, 0);
+    w.w_set_weight(out, &au, 2, 0, 0, 9);
+    w.w_install(out, &au, 2, 0, &[(4, 1)], 1);
+    if w.can_enforce(out, Pol::W, 2, 0, &Cx::transfer(1), &[0, 1, 2, 3]) == Some(false) { out.label("w_install/reinstall-forgets-old-weights"); }
+    w.can_enforce(out, Pol::W, 2, 0, &Cx::transfer(1), &[4]);
+    w.w_set_weight(out, &au, 2, 0, 0, 7);
+    w.w_set_threshold(out, &au, 2, 0, 8);
+    w.can_enforce(out, Pol::W, 2, 0, &Cx::transfer(1), &[0]);
+    w.can_enforce(out, Pol::W, 2, 0, &Cx::transfer(1), &[4, 0]);
+    w.uninstall(out, Pol::W, &au, 2, 0);
+    if w.uninstall(out, Pol::W, &au, 2, 0) { out.label("w_uninstall/ok-twice"); }
+    // ---- spending: four entries leave the window first / two together / last; limit rewritten; all stale ----
+    let sg = [1usize];
+    w.l_install(out, &au, 2, 0, 100, 10);
+    for (i, amt) in [10i128, 20, 30, 40].iter().enumerate() {
+        w.enforce(out, Pol::L, &au, 2, 0, &[Cx::transfer_t(i % 2, *amt)], &sg);
+        if i < 3 { w.advance(out, 1); }
+    }
+    w.advance(out, 7);                                              // ledger 50: the entry of ledger 40 has left
+    w.can_enforce(out, Pol::L, 2, 0, &Cx::transfer(11), &sg);
+    w.can_enforce(out, Pol::L, 2, 0, &Cx::transfer(10), &sg);
+    w.enforce(out, Pol::L, &au, 2, 0, &[Cx::transfer(10)], &sg);
+    w.advance(out, 2);                                              // 52: the entries of 41 and 42 leave together
+    w.can_enforce(out, Pol::L, 2, 0, &Cx::transfer(51), &sg);
+    w.enforce(out, Pol::L, &au, 2, 0, &[Cx::transfer(50)], &sg);
+    w.advance(out, 1);                                              // 53: 40 leaves
+    if w.l_set_limit(out, &au, 2, 0, 100) { out.label("l_set_limit/same"); }
+    w.enforce(out, Pol::L, &au, 2, 0, &[Cx::transfer(41)], &sg);
+    w.enforce(out, Pol::L, &au, 2, 0, &[Cx::transfer(40)], &sg);
+    w.advance(out, 20);                                             // everything stored is stale, nothing has pruned it
+    w.can_enforce(out, Pol::L, 2, 0, &Cx::transfer(100), &sg);
+    w.l_set_limit(out, &au, 2, 0, 120);                             // raised over a stale history
+    w.can_enforce(out, Pol::L, 2, 0, &Cx::transfer(121), &sg);
+    w.enforce(out, Pol::L, &au, 2, 0, &[Cx::transfer(100)], &sg);
+    let r1 = w.enforce(out, Pol::L, &au, 2, 0, &[Cx::transfer(21)], &sg);
+    let r2 = w.enforce(out, Pol::L, &au, 2, 0, &[Cx::transfer(20)], &sg);
+    if !r1 && r2 { out.label("l_set_limit/raised-over-stale-history"); }
+    w.advance(out, 10);
+    w.l_set_limit(out, &au, 2, 0, 30);                              // lowered over a stale history
+    w.can_enforce(out, Pol::L, 2, 0, &Cx::transfer(31), &sg);
+    w.enforce(out, Pol::L, &au, 2, 0, &[Cx::transfer(30)], &sg);
+    // remove, re-add: a fresh installation; remove twice
+    w.uninstall(out, Pol::L, &au, 2, 0);
+    w.l_install(out, &au, 2, 0, 100, 10);
+    if w.enforce(out, Pol::L, &au, 2, 0, &[Cx::transfer(100)], &sg) { out.label("l_install/reinstall-is-fresh"); }
+    w.uninstall(out, Pol::L, &au, 2, 0);
+    if w.uninstall(out, Pol::L, &au, 2, 0) { out.label("l_uninstall/ok-twice"); }
+    w.l_set_limit(out, &au, 2, 0, 7);
+    w.can_enforce(out, Pol::L, 2, 0, &Cx::transfer(0), &sg);
+    // the other rule of the same account and the same rule of the contract account are separate entries
+    w.l_install(out, &au, 2, 1, 50, 10);
+    w.l_install(out, &me(0), 0, 0, 60, 10);
+    w.enforce(out, Pol::L, &au, 2, 1, &[Cx::transfer(50)], &sg);
+    w.enforce(out, Pol::L, &me(0), 0, 0, &[Cx::transfer(60)], &sg);
+    w.enforce(out, Pol::L, &au, 2, 1, &[Cx::transfer(1)], &sg);
+    w.can_enforce(out, Pol::L, 2, 0, &Cx::transfer(1), &sg);
+    // a batch that repeats one context (duplicates inside a list argument)
+    w.advance(out, 10);
+    let cx = Cx::transfer(20);
+    w.enforce(out, Pol::L, &Auth { via: true, mock: std::vec![2] }, 2, 1, &[cx.clone(), cx.clone(), cx.clone()], &sg);
+    if w.enforce(out, Pol::L, &Auth { via: true, mock: std::vec![2] }, 2, 1, &[cx.clone(), cx.clone()], &sg) { out.label("l_batch/duplicate-contexts"); }
+    w.enforce(out, Pol::L, &au, 2, 1, &[Cx::transfer(11)], &sg);
+    w.enforce(out, Pol::L, &au, 2, 1, &[Cx::transfer(10)], &sg);
+    w.finish(out, "directed-histories", 40);
+}
+
+/// thorough tier: every (token contract, from, to) over the special parties, one unit each, against ONE budget
+fn enum_parties(out: &mut Out) {
+    let ps = [A::Addr, A::Acct(0), A::Acct(1), A::Acct(2), A::Pol, A::Tok(0), A::Muxed(1), A::G];
+    for a in [1usize, 0] {
+        let mut w = World::special(10, &[a], &[1], a == 0);
+        let total = (NTOK * ps.len() * ps.len()) as i128;
+        w.l_install(out, &me(a), a, 0, total, 100_000);
+        for tok in 0..NTOK { for f in &ps { for t in &ps {
+            let cx = Cx::transfer_p(tok, f.clone(), t.clone(), 1);
+            if (tok + w.items.len()) % 4 == 0 { w.can_enforce(out, Pol::L, a, 0, &cx, &[0]); }
+            w.enforce(out, Pol::L, &me(a), a, 0, &[cx], &[0]);
+        } } if tok % 2 == 1 { w.advance(out, 1); } }
+        w.can_enforce(out, Pol::L, a, 0, &Cx::transfer(1), &[0]);
+        w.enforce(out, Pol::L, &me(a), a, 0, &[Cx::transfer_t(3, 1)], &[0]);
+        w.finish(out, "enum-parties", 10);
+    }
+}
+
+/// K3 / K1: the real smart-account contract drives the real spending policy through its __check_auth
+/// (constructor -> install; can_enforce for all contexts, then enforce for all); direct calls on the policy for
+/// that account - a registered contract with a real __check_auth - without any authorisation entry must fail
+fn real_account(out: &mut Out) {
+    let mut w = World::special(77, &[7], &[0], false);
+    w.deploy_account(out, 100, 10);
+    let t = |a: i128| Cx::transfer_p(0, A::Acct(7), A::Addr, a);
+    w.can_enforce(out, Pol::L, 7, 0, &t(100), &[3]);
+    w.check_auth(out, &[t(60)], &[3, 4]);
+    w.check_auth(out, &[t(41)], &[3]);                         // refused by can_enforce: no rule validates
+    w.check_auth(out, &[t(20), t(21)], &[3, 4]);               // each passes can_enforce, the second enforce traps
+    w.check_auth(out, &[t(20), Cx::transfer_p(1, A::Acct(7), A::Acct(7), 20)], &[4]);
+    w.check_auth(out, &[t(0)], &[]);                           // nobody signed
+    w.check_auth(out, &[Cx { tok: 0, kind: 0, f: 1, args: std::vec![A::Addr, A::Addr, A::I(0)] }], &[3]);
+    w.can_enforce(out, Pol::L, 7, 0, &t(1), &[3]);
+    w.advance(out, 9);
+    w.check_auth(out, &[t(1)], &[3]);
+    w.advance(out, 1);
+    w.check_auth(out, &[t(50), t(50)], &[3, 4]);
+    w.check_auth(out, &[t(0)], &[4]);
+    // the policy's own entry points for that account, without an authorisation entry: the host asks the account's
+    // __check_auth, which is given nothing
+    let r1 = w.enforce(out, Pol::L, &noauth(), 7, 0, &[t(0)], &[3]);
+    let r2 = w.l_set_limit(out, &noauth(), 7, 0, 1000);
+    let r3 = w.uninstall(out, Pol::L, &noauth(), 7, 0);
+    let r4 = w.l_install(out, &Auth { via: true, mock: std::vec![] }, 7, 0, 5, 5);
+    if !r1 && !r2 && !r3 && !r4 { out.label("l_acct/real-account-noauth-refused"); }
+    w.s_install(out, &noauth(), 7, 0, &[3, 4], 1, true);
+    w.w_install(out, &noauth(), 7, 0, &[(3, 1)], 1);
+    w.finish(out, "real-account", 77);
+}
+
 fn main() {
     let mut out = Out::new("From SC Require Import Lib.Prelude Lib.Int Lib.Host Model.Policies Run.C14.\nOpen Scope Z_scope.", "check_all");
     out.per_shard(400);
     let mut rng = Rng::new(out.cfg.seed);
     let thorough = out.cfg.thorough;
     let scale = out.cfg.scale as usize;
-    directed(&mut out);
+    directed(&mut out, false);
     directed_window(&mut out);
+    // K1 .. K6 (see props/C14.json "rule"): special addresses, unusual values, sibling paths, aliasing, histories
+    directed(&mut out, true);
+    directed_parties(&mut out);
+    directed_special_accounts(&mut out);
+    catalogue_rule_ids(&mut out);
+    catalogue_amounts(&mut out);
+    catalogue_periods(&mut out);
+    catalogue_signers(&mut out);
+    directed_histories(&mut out);
+    real_account(&mut out);
     for (i, h) in HOSTS.iter().enumerate() { persistence(&mut out, &mut rng, *h, 1 + 1000 * i as u32); }
     // history bound (MAX_HISTORY_ENTRIES), reached with batches
     let nb = if thorough { 6 } else { 2 } * scale;
@@ -1076,7 +1674,8 @@ fn main() {
     let (ntr, steps) = if thorough { (600 * scale, 90) } else { (60 * scale, 45) };
     for i in 0..ntr {
         let start = match rng.below(6) { 0 => 1, 1 => 2, 2 => 1_000_000, 3 => 2_000_000_000, _ => 1 + rng.below(40) as u32 };
-        let mut w = World::with_host(start, NACCT, RIDS.len(), HOSTS[i % 2]);
+        // every fourth random trace drives the inherent library functions (wrappers) instead of the example contracts
+        let mut w = World::build(start, (0..NACCT).collect(), RIDS.to_vec(), HOSTS[i % 2], i % 4 == 3);
         let steps = steps + rng.below(steps as u64 / 2) as usize;
         let desc = match i % 6 {
             0 => { gen_simple(&mut w, &mut out, &mut rng, steps); "random-simple" }
@@ -1088,6 +1687,7 @@ fn main() {
         w.finish(&mut out, desc, start);
     }
     if thorough {
+        enum_parties(&mut out);
         enum_thresholds(&mut out);
         enum_spending(&mut out, 4, &[0, 1, 2, 3, 4, 5, 6, 7]);
         enum_spending(&mut out, 5, &[1, 2, 3, 4, 5]);
